@@ -198,12 +198,18 @@ def E_var2h(rng, tier):
                             np.ones(n), np.zeros(nh))
                 yield f"direct|n={n}|nh={nh}|hs={hs}", thunk
     # very long output (int overflow of i*nbsec_per_period beyond 68 years)
-    if tier == "thorough":
-        def long_thunk():
-            idx = pd.DatetimeIndex(["1900-01-01", "1950-01-01", "2000-06-01"])
-            dutils.var2h(pd.Series([1.0, 2.0, 3.0], index=idx), 1800,
-                         maxgapsec=2 ** 31 - 1)
-        yield "long-span-100y", long_thunk
+    def long_thunk():
+        idx = pd.DatetimeIndex(["1900-01-01", "1950-01-01", "2000-06-01"])
+        dutils.var2h(pd.Series([1.0, 2.0, 3.0], index=idx), 1800,
+                     maxgapsec=2 ** 31 - 1)
+    yield "long-span-100y", long_thunk
+
+    def long_daily():
+        idx = pd.date_range("1946-01-01", "2018-06-01", freq="D")
+        dutils.var2h(pd.Series(np.ones(len(idx)), index=idx), 3600)
+        idx2 = pd.DatetimeIndex(["1946-01-01 00:10", "2018-06-01 00:20"])
+        dutils.var2h(pd.Series([1.0, 2.0], index=idx2), 3600)
+    yield "long-span-72y-daily", long_daily
 
 
 def E_datehelpers(rng, tier):
@@ -451,6 +457,77 @@ def E_gridedges(rng, tier):
                 yield f"csz={csz:.3g}|nc={nc}|xll={xll}", thunk
 
 
+def E_readonly_memory(rng, tier):
+    """inputs that live in memory the process may not write (a file mapped read-only, as
+    np.load(..., mmap_mode="r") gives): a kernel that scribbles on its input - sorting
+    it in place, clamping it - dies with SIGSEGV instead of silently altering data"""
+    import tempfile
+    from hydrodiy.stat import metrics, sutils, armodels
+    from hydrodiy.data import dutils, qualitycontrol as qc
+    from hydrodiy.gis import gutils
+    d = tempfile.mkdtemp(prefix="hyv-ro-")
+
+    def ro(a, name):
+        f = os.path.join(d, name + ".npy")
+        np.save(f, np.ascontiguousarray(a))
+        return np.load(f, mmap_mode="r")
+    n = 200
+    r = np.random.default_rng(5)
+    obs = np.abs(r.normal(size=n)) + 0.5
+    ens = np.abs(r.normal(size=(n, 7))) + 0.5
+    u = r.random(n)
+    idx = np.repeat(np.arange(n // 4), 4).astype(np.int32)
+    pts = r.normal(size=(50, 2))
+    poly = np.array([[0., 0.], [1., 0.], [1., 1.], [0., 1.]])
+    calls = {
+        "anderson_darling": lambda: metrics.anderson_darling_test(ro(u, "u")),
+        "cramer_von_mises": lambda: metrics.cramer_von_mises_test(ro(u, "u")),
+        "crps": lambda: metrics.crps(ro(obs, "o"), ro(ens, "e")),
+        "pit": lambda: metrics.pit(ro(obs, "o"), ro(ens, "e")),
+        "alpha": lambda: metrics.alpha(ro(obs, "o"), ro(ens, "e")),
+        "dscore": lambda: metrics.dscore(ro(obs, "o"), ro(ens, "e")),
+        "scores": lambda: (metrics.nse(ro(obs, "o"), ro(obs * 1.1, "s")),
+                           metrics.kge(ro(obs, "o"), ro(obs * 1.1, "s")),
+                           metrics.bias(ro(obs, "o"), ro(obs * 1.1, "s")),
+                           metrics.corr(ro(obs, "o"), ro(ens, "e"))),
+        "aggregate": lambda: [dutils.aggregate(ro(idx, "i"), ro(obs, "o"), operator=k)
+                              for k in range(4)],
+        "flathomogen": lambda: dutils.flathomogen(ro(idx, "i"), ro(obs, "o")),
+        "islinear": lambda: qc.islinear(ro(obs, "o")),
+        "armodel": lambda: (armodels.armodel_sim(ro(np.array([0.5, 0.2]), "p"),
+                                                 ro(obs, "o")),
+                            armodels.armodel_residual(ro(np.array([0.5, 0.2]), "p"),
+                                                      ro(obs, "o"))),
+        "pareto_front": lambda: sutils.pareto_front(ro(ens, "e")),
+        "lstsq": lambda: sutils.lstsq(ro(ens[:, :3], "x"), ro(obs, "o")),
+        "standard_normal": lambda: sutils.standard_normal(ro(obs, "o")),
+        "acf": lambda: sutils.acf(ro(obs, "o"), 5),
+        "points_inside_polygon": lambda: gutils.points_inside_polygon(ro(pts, "q"),
+                                                                      ro(poly, "y")),
+    }
+
+    def gridcalls():
+        g = _grid(6, 7)
+        g.data = ro(r.normal(size=(6, 7)), "gd")
+        p = ro(np.abs(pts) * 3, "gp")
+        g.coord2cell(p)
+        g.slice(p)
+        c = ro(np.arange(10, dtype=np.int64), "gc")
+        g.cell2coord(c)
+        g.cell2rowcol(c)
+        cat, fd = _catch(np.full((6, 7), 4))
+        cat.delineate_area(38)
+        from hydrodiy.gis import grid as gg
+        gg.voronoi(cat, ro(np.array([[1., 1.], [3., 3.], [5., 2.]]), "vp"))
+    calls["grid"] = gridcalls
+    try:
+        for k, fn in calls.items():
+            yield k, fn
+    finally:
+        import shutil
+        shutil.rmtree(d, ignore_errors=True)
+
+
 def E_pip(rng, tier):
     from hydrodiy.gis import gutils
     polys = [np.zeros((0, 2)), np.array([[0.5, 0.5]]), np.array([[0., 0.], [3., 3.]]),
@@ -674,6 +751,7 @@ ENTRIES = {
     "catchment-from_dict": E_catchment_fromdict, "accumulate-slope": E_accumulate,
     "delineate_river": E_river, "voronoi-intersect": E_voronoi_intersect,
     "intersect-alignments": E_intersect_alignments, "grid-edges": E_gridedges,
+    "readonly-memory": E_readonly_memory,
 }
 
 
